@@ -258,13 +258,14 @@ PROPS["C16"]["extra"] = procdrive.c16_extra
 PROPS["C16"]["need_engine"] = True
 
 PROPS["C12"] = {
-    "module": "RCE.Props.C12chess",
+    "module": "RCE.Props.C12chess2",
     "theorems": ["RCE.Props.C12.tt_mate_sound_partial", "RCE.Props.C12.mate_score_sound_partial", "RCE.Props.C12.statements_refuted",
                  "RCE.Props.C12.mate_in_one_played", "RCE.Props.C12.mate_in_one_answered", "RCE.Props.C12.mateOneInv_empty",
                  "RCE.Props.C12.chess_orderScoresOK", "RCE.Props.C12.mate_in_one_nonvacuous",
                  "RCE.Props.C12.avoidable_mate_avoided_partial", "RCE.Props.C12.avoidable_mate_avoided_again", "RCE.Props.C12.avoidable_mate_statement_refuted",
                  "RCE.Props.C12.mate_in_two_kept_partial", "RCE.Props.C12.mate_in_two_kept_four", "RCE.Props.C12.mate_in_two_statement_refuted",
-                 "RCE.Props.C12.chess_mates_iff", "RCE.Props.C12.chess_mate_in_one_by_the_rules"],
+                 "RCE.Props.C12.chess_mates_iff", "RCE.Props.C12.chess_mate_in_one_by_the_rules",
+                 "RCE.Props.C12.chess_avoidable_mate_by_the_rules", "RCE.Props.C12.chess_mate_in_two_forced_by_the_rules", "RCE.Props.C12.chess_lost_iff"],
     "streams": {"quick": [S("search-mate", "mate", 160, 4)], "thorough": [S("search-mate", "mate", 3200, 5), SK_T]},
     "eval_key": "cases", "distinct_key": "distinct_cases",
     "rule": SEARCH_RULE + "; for C12: positions WITHOUT history and with a small half-move clock are mined by brute force (sparse random positions and random play from the seeds) so that a third has a mate in one, "
